@@ -314,6 +314,62 @@ def edge_check(p):
     return []
 
 
+def near_one_check(p):
+    """Implementation-level (weights that are not exactly representable sums): weights close to but different from 1 are not
+    unit weights — every category / bin holds the sum of its weights, whichever fast path the batch takes."""
+    import numpy as np
+
+    hg = gen.hg
+    k_ = len(p["rows"]) + p["cut"]
+    wv = [1.000004, 0.999996, 1.0000001, 1.00001][k_ % 4]
+    cats = ["a", "b", "a", "c", "a", "b", "a"]
+    xs = [0.1, 0.2, 0.1, 0.7, 0.1, 0.2, 0.1]
+    for what, mk_, data, rowval in (("Categorize of Counts", lambda: hg.Categorize(lambda d: d), np.array(cats), cats),
+                                    ("SparselyBin of Counts", lambda: hg.SparselyBin(0.25, lambda d: d), np.array(xs), xs),
+                                    ("Bin of Counts", lambda: hg.Bin(4, 0.0, 1.0, lambda d: d), np.array(xs), xs),
+                                    ("CentrallyBin of Counts", lambda: hg.CentrallyBin([0.0, 0.5, 1.0], lambda d: d), np.array(xs), xs)):
+        for mode in ("array", "scalar"):
+            a, b = mk_(), mk_()
+            try:
+                if mode == "array":
+                    a.fill.numpy(data, np.full(len(rowval), wv))
+                else:
+                    a.fill.numpy(data, wv)
+                for v in rowval:
+                    b.fill(v, wv)
+            except Exception as e:  # noqa: BLE001
+                return ["%s filled with weights %r (%s): %s: %s" % (what, wv, mode, type(e).__name__, str(e)[:160])]
+            d = _close(a.toJson()["data"], b.toJson()["data"])
+            if d:
+                return ["%s filled with the %s weight %r (close to, but not, 1): vectorised and per-row fill differ: %s" % (what, mode, wv, d)]
+    return []
+
+
+def _close(x, y, path=""):
+    num = lambda v: isinstance(v, (int, float)) and not isinstance(v, bool)  # noqa: E731
+    if num(x) and num(y):
+        return None if abs(x - y) <= 1e-9 * max(1.0, abs(x), abs(y)) else "%s: %r != %r" % (path, x, y)
+    if type(x) is not type(y):
+        return "%s: %r vs %r" % (path, x, y)
+    if isinstance(x, dict):
+        if set(x) != set(y):
+            return "%s: keys differ" % path
+        for k in x:
+            r = _close(x[k], y[k], path + "/" + str(k))
+            if r:
+                return r
+        return None
+    if isinstance(x, list):
+        if len(x) != len(y):
+            return "%s: lengths differ" % path
+        for i, (u, v) in enumerate(zip(x, y)):
+            r = _close(u, v, "%s[%d]" % (path, i))
+            if r:
+                return r
+        return None
+    return None if x == y else "%s: %r != %r" % (path, x, y)
+
+
 def execs_diff(x, y):
     import execs
 
@@ -337,7 +393,7 @@ def oracle(case, py, replies):
     from runner import dec
 
     p = dec(case["params"])
-    return common.eval_expect(case, py, replies) + transform_check(p) + edge_check(p)
+    return common.eval_expect(case, py, replies) + transform_check(p) + edge_check(p) + near_one_check(p)
 
 
 def stats(case, py, replies):
